@@ -364,6 +364,9 @@ func (e *SpecEnv) call(n *ECall) SV {
 		return term(fmt.Sprintf("(select (TrA %s) %s)", e.H, e.t(n.Args[0])), SVal)
 	case "trB":
 		return term(fmt.Sprintf("(select (TrB %s) %s)", e.H, e.t(n.Args[0])), SVal)
+	case "same":
+		// exact identity (for floats: the identical value, not Go's ==)
+		return term(fmt.Sprintf("(= %s %s)", e.t(n.Args[0]), e.t(n.Args[1])), SBool)
 	case "kindAt":
 		return term(fmt.Sprintf("(select (Kind %s) %s)", e.H, e.t(n.Args[0])), SInt)
 	case "allocated":
